@@ -85,4 +85,9 @@ TEXTS["C17"] = {
     "note": "Real cluster.go PeerAdd/PeerRemove/Join/watchPeers/Shutdown and consensus/raft from /repo on loopback hosts and temp dirs.",
     "technique": "model-based stateful property testing of membership histories (rapid state machine)",
 }
+TEXTS["C18"] = {
+    "level": "Randomised concurrency testing under the Go race detector: generated operation mixes (2-6 goroutines, drawn operation lists over a tiny CID/peer universe, drawn GOMAXPROCS, each mix repeated) on the stateless tracker, the bare operation tracker, the metrics store+checker, a bare metrics window, the Cluster facade reading Alerts() while >1000 alerts arrive and pins happen, and shutdown-while-in-use of informers, CRDT batching, Cluster and tracker; oracle: no race report, no panic, all callers return within a watchdog, structural checks on returned lists. Schedules are sampled, not enumerated.",
+    "note": "Real components from /repo built with -race; the Cluster is wired to harness fakes.",
+    "technique": "property-based generation of concurrent operation mixes under the race detector with structural result oracles (rapid)",
+}
 PENDING = {}
